@@ -1045,8 +1045,12 @@ func (p Patch) replace(doc *container, op Operation, options *ApplyOptions) erro
 
 		switch val.which {
 		case eAry:
+			if val.ary != nil {
+				val.ary.self = val
+			}
 			*doc = val.ary
 		case eDoc:
+			val.doc.self = val
 			*doc = val.doc
 		case eRaw:
 			return fmt.Errorf("replace operation hit impossible case: %w", err)
